@@ -146,6 +146,22 @@ func (n *Node) create(trx *transaction.Transaction, budget int) (*accountant.Ver
 	if pn {
 		n.violate("C15", "createleaf-panic", "CreateLeaf panicked: "+err.Error()+" ops="+fmt.Sprint(n.ops))
 	}
+	if cls == "RTrxExists" && n.prev.Loaded {
+		// C03: "already sealed" is only a reason while some vertex holds the transaction (or the index still points at one): a transaction
+		// whose tentative vertex was dropped as invalid can be proposed again
+		_, indexed := n.prev.Index[trx.Hash]
+		held := false
+		for i := range n.prev.Vertices {
+			held = held || n.prev.Vertices[i].Transaction.Hash == trx.Hash
+		}
+		for i := range n.prev.StoredVertices {
+			held = held || n.prev.StoredVertices[i].Transaction.Hash == trx.Hash
+		}
+		n.stats["monitor.refused_as_sealed_checked"]++
+		if !indexed && !held {
+			n.violate("C03", "free-transaction-refused-as-sealed", fmt.Sprintf("proposal of transaction %d refused as already sealed although no vertex holds it and the index has no entry for it (its vertex was dropped)", n.w.H(trx.Hash)))
+		}
+	}
 	return created, cls
 }
 
